@@ -314,6 +314,11 @@ func (m *Machine) asPtr(d Val) Ptr {
 	if p, ok := d.(Ptr); ok {
 		return p
 	}
+	if td, ok := d.(typeDesc); ok {
+		// the type word of an interface read as a plain pointer: it is the address of the type's descriptor, the same
+		// object reflect.TypeOf hands out
+		return Ptr{m.rtypeObj(td.t), 0}
+	}
 	endPath("MEMSAFETY", "pointer word holds %T", d)
 	return Ptr{}
 }
